@@ -208,7 +208,12 @@ void Symmetrizer::compute(bool ignore_symmetries)
                 unsigned short Spin = IndexInfo.getInfo(i).Spin;
                 if ( Spin == up ) SpinUpIndices.push_back(i);
             }
-            Operator op_sz = Pomerol::OperatorPresets::Sz(IndexSize, SpinUpIndices);
+            Operator op_sz;
+            if (2*SpinUpIndices.size() == IndexSize)
+                op_sz = Pomerol::OperatorPresets::Sz(IndexSize, SpinUpIndices);
+            else // unequal numbers of up and down indices (spinless or mixed sites): OperatorPresets::Sz would throw
+                for (ParticleIndex i=0; i<IndexSize; ++i)
+                    op_sz += OperatorPresets::n(i)*MelemType(IndexInfo.getInfo(i).Spin == up ? 0.5 : -0.5);
             if (this->checkSymmetry(op_sz)) INFO("[ H ," << op_sz << " ]=0");
         };
     };
